@@ -2,7 +2,8 @@
    Only statements, [exact], Print Assumptions and Examples live here. *)
 From Coq Require Import List NArith Arith.
 From DS Require Import Gen.Constants Base.Bytes Base.Word32 Model.Chunker
-     Proofs.RollProofs Proofs.ChunkerSpecProofs Proofs.ChunkerImplProofs.
+     Model.PChunker Base.Hash Base.Sched
+     Proofs.RollProofs Proofs.ChunkerSpecProofs Proofs.ChunkerImplProofs Proofs.PChunkerMain Proofs.PChunkerOld.
 Import ListNotations.
 
 (* The incremental hash update of Chunker.Next (rotate, xor out the byte leaving the window
@@ -73,6 +74,38 @@ Theorem C02_self_sync : forall min max d, W <= min -> min <= max -> 0 < max ->
   skipn k1 (chunk_all min max d (skipn o1 data)) = skipn k2 (chunk_all min max d (skipn o2 data)).
 Proof. exact self_sync. Qed.
 Print Assumptions C02_self_sync.
+
+(* PARALLEL = SEQUENTIAL.  IndexFromFile as a system of n chunk workers (pChunker.start with
+   syncWith, the null-chunk look-ahead and fast-forward, neighbour skipping) and the collector,
+   one atomic step per channel operation / chunker call: for EVERY n >= 1 and EVERY schedule,
+   once the collector is done the collected index is exactly the single-stream index (offsets and
+   sizes; IDs are H of those byte ranges) -- or H collides on the all-zero chunk. *)
+Theorem C02_pchunk_eq_seq : forall (H : bytes -> id) min max d data, W <= min -> min <= max -> 0 < max ->
+  forall n, 1 <= n -> forall sched : list ptid,
+  let s := run (pstep H min max d data false) sched (pinit max data n) in
+  k_done (p_c s) = true ->
+  k_out (p_c s) = seq_index min max d data \/ Collision H.
+Proof. exact pchunk_eq_seq. Qed.
+Print Assumptions C02_pchunk_eq_seq.
+
+(* ... and at every moment of every run what has been collected is a prefix of it. *)
+Theorem C02_pchunk_prefix : forall (H : bytes -> id) min max d data, W <= min -> min <= max -> 0 < max ->
+  forall n, 1 <= n -> forall sched : list ptid,
+  let s := run (pstep H min max d data false) sched (pinit max data n) in
+  (exists rest, seq_index min max d data = k_out (p_c s) ++ rest) \/ Collision H.
+Proof. exact pchunk_prefix. Qed.
+Print Assumptions C02_pchunk_prefix.
+
+(* The collector rule before the "fix:" commit (stop at the first worker that reached end of
+   stream) is refuted by a concrete 635-step schedule on a 4564-byte all-zero file with 12 workers:
+   the collector reports done with fewer chunks than the single-stream index and without
+   covering the file. *)
+Theorem C02_pchunk_eof_break_refuted :
+  k_done (p_c old_final) = true /\
+  length (k_out (p_c old_final)) < length (seq_index 100 152 120%N old_data) /\
+  covered (k_out (p_c old_final)) < length old_data.
+Proof. exact old_collector_loses_chunks. Qed.
+Print Assumptions C02_pchunk_eof_break_refuted.
 
 (* Non-vacuity: the generated window is 48, the table has 256 entries below 2^32; a 300-byte
    input with min 48 / max 120 / discriminator 7 is cut by rule and implementation alike,
